@@ -156,6 +156,11 @@ func transform(rel string, code []byte, mode string) ([]byte, error) {
 		// virtual instant, Go picks one pseudo-randomly - nondeterminism nobody owns. As in mode C the first ready case in
 		// source order is taken (met with seed C08-r6-1: a context deadline and the read timeout became ready together).
 		ci := &cinst{fset: fset, rel: rel, gen: map[ast.Stmt]bool{}}
+		ci.waitPkg = "vtimeb"
+		// only the single-threaded client executions: the server's goroutines wait for each other, not for the clock
+		if !strings.HasPrefix(filepath.ToSlash(rel), "server/") && ci.blockingB(f) {
+			addImport(f, shimBase+"vtime", "vtimeb")
+		}
 		ast.Inspect(f, func(n ast.Node) bool {
 			if sel, ok := n.(*ast.SelectStmt); ok && hasDefault(sel) && !ci.gen[sel] {
 				ci.prioritise(sel)
@@ -169,4 +174,61 @@ func transform(rel string, code []byte, mode string) ([]byte, error) {
 	}
 	hdr := fmt.Sprintf("// Code generated by /verif/engine/xform (mode %s) from %s; DO NOT EDIT.\n\n", mode, rel)
 	return append([]byte(hdr), buf.Bytes()...), nil
+}
+
+// blockingB rewrites the blocking waits of a mode B file (statement-level receives and selects without a default clause)
+// so that they move the virtual clock instead of waiting for somebody else to do it (see shim/vtime: Recv, WaitExternal).
+// Met with the behaviour-preserving refactoring benign/client-6 (`<-timer.C` instead of time.Sleep): the check hung.
+// Reports whether anything was rewritten. Code without such waits - the unchanged tree - is generated as before.
+func (ci *cinst) blockingB(f *ast.File) bool {
+	changed := false
+	recv := func(e ast.Expr, fn string) ast.Expr {
+		if u, ok := e.(*ast.UnaryExpr); ok && u.Op == token.ARROW {
+			changed = true
+			return &ast.CallExpr{Fun: &ast.SelectorExpr{X: ast.NewIdent("vtimeb"), Sel: ast.NewIdent(fn)}, Args: []ast.Expr{u.X}}
+		}
+		return e
+	}
+	list := func(in []ast.Stmt) []ast.Stmt {
+		for i, st := range in {
+			switch x := st.(type) {
+			case *ast.ExprStmt:
+				x.X = recv(x.X, "Recv")
+			case *ast.AssignStmt:
+				if len(x.Rhs) == 1 {
+					fn := "Recv"
+					if len(x.Lhs) == 2 {
+						fn = "Recv2"
+					}
+					x.Rhs[0] = recv(x.Rhs[0], fn)
+				}
+			case *ast.SelectStmt:
+				if !hasDefault(x) && !ci.gen[x] {
+					changed = true
+					in[i] = ci.selectStmt0(x)
+				}
+			case *ast.LabeledStmt:
+				if sel, ok := x.Stmt.(*ast.SelectStmt); ok && !hasDefault(sel) && !ci.gen[sel] {
+					changed = true
+					ls := ci.selectStmt0(sel).(*ast.LabeledStmt) // _vlN: L: select {...}
+					x.Stmt = ls.Stmt
+					ls.Stmt = x
+					in[i] = ls
+				}
+			}
+		}
+		return in
+	}
+	ast.Inspect(f, func(n ast.Node) bool {
+		switch x := n.(type) {
+		case *ast.BlockStmt:
+			x.List = list(x.List)
+		case *ast.CaseClause:
+			x.Body = list(x.Body)
+		case *ast.CommClause:
+			x.Body = list(x.Body)
+		}
+		return true
+	})
+	return changed
 }
